@@ -326,20 +326,44 @@ def report_seq_problem(ctx, env, p):
 
 
 # ----------------------------------------------------------------------------- sort sweep
-def sort_oracle(elems, cmp, method):
-    """spec: SortIndexedProperties + SortCompare; stable. elems: 'n' | 'u' | [key, tag]"""
-    vals = [e for e in elems if e not in ("n", "u")]
-    und = sum(1 for e in elems if e == "u")
-    holes = sum(1 for e in elems if e == "n")
+def estr(e):
+    return "%d.%d" % (e[0], e[1]) if isinstance(e, list) else e
+
+
+def sort_collect(c):
+    """SortIndexedProperties (ECMA-262 23.1.3.30.1): for sort() holes are skipped by HasProperty — which
+    looks through the prototype chain; toSorted reads every index with Get. Returns the collected values in
+    index order and the number of indices that contribute nothing (true holes)."""
+    inherited = {}
+    where = c.get("pwhere", "")
+    if where and c["recv"] != "goslice" and not (where == "array" and c["recv"] == "arraylike"):
+        for idx, e in c.get("pitems", []):
+            inherited[idx] = e
+    collected, holes = [], 0
+    for i, e in enumerate(c["elems"]):
+        if e != "n":
+            collected.append(e)
+        elif i in inherited:
+            collected.append(inherited[i])
+        else:
+            holes += 1
+    return collected, holes
+
+
+def sort_oracle(c):
+    """expected OWN-key layout after sort() / of the toSorted() result: stable sort of the collected values,
+    undefined last, then (sort) the remaining indices deleted = not own, (toSorted) undefined."""
+    collected, holes = sort_collect(c)
+    cmp, method = c["cmp"], c["method"]
+    vals = [e for e in collected if e != "u"]
+    und = sum(1 for e in collected if e == "u")
     if cmp in ("asc", "str"):
         s = sorted(vals, key=lambda e: e[0])
     elif cmp == "desc-negate":
         s = sorted(vals, key=lambda e: -e[0])
-    elif cmp == "undef":
-        s = sorted(vals, key=lambda e: "[object Object]")     # all objects stringify alike
     else:
-        s = list(vals)
-    out = ["%d.%d" % (e[0], e[1]) for e in s]
+        s = list(vals)          # undef: all objects stringify alike; negzero/nan/poszero: all equal
+    out = [estr(e) for e in s]
     if method == "toSorted":
         return out + ["u"] * (und + holes)
     return out + ["u"] * und + ["n"] * holes
@@ -365,7 +389,18 @@ def gen_sort_cases(rng, n):
         mut = ""
         if recv in ("dense", "sparse") and method == "sort" and cmp != "undef" and rng.random() < 0.2:
             mut = rng.choice(["shrink", "grow", "sparse", "throw"])
-        cases.append({"recv": recv, "method": method, "cmp": cmp, "elems": elems, "mutate": mut, "seed": rng.randrange(1000)})
+        case = {"recv": recv, "method": method, "cmp": cmp, "elems": elems, "mutate": mut, "seed": rng.randrange(1000)}
+        # inherited indexed properties: Array.prototype / Object.prototype / a custom object on the chain
+        if recv != "goslice" and not mut and ln > 0 and rng.random() < 0.4:
+            for t in range(ln):                     # make sure there are holes for them to shine through
+                if rng.random() < 0.25:
+                    elems[t] = "n"
+            holes = [t for t in range(ln) if elems[t] == "n"]
+            idxs = set(rng.sample(holes, min(len(holes), rng.randint(1, 3)))) if holes else set()
+            idxs.add(rng.randrange(ln + 2))         # also a non-hole / out-of-range index: must not matter
+            case["pwhere"] = rng.choice(["array", "object", "custom"])
+            case["pitems"] = [[i, ("u" if rng.random() < 0.15 else [rng.randrange(keys), 100 + i])] for i in sorted(idxs)]
+        cases.append(case)
     return cases
 
 
@@ -375,7 +410,8 @@ def check_sort(ctx, env, cases):
     agree = True
     for c, line, o in zip(cases, lines, outs):
         ctx.count(1)
-        env.stats["sort_cases"][c["cmp"] + ("+" + c["mutate"] if c["mutate"] else "")] = env.stats["sort_cases"].get(c["cmp"] + ("+" + c["mutate"] if c["mutate"] else ""), 0) + 1
+        skey = c["cmp"] + ("+" + c["mutate"] if c["mutate"] else "") + ("+proto:" + c["pwhere"] if c.get("pwhere") else "")
+        env.stats["sort_cases"][skey] = env.stats["sort_cases"].get(skey, 0) + 1
         rep = {"kind": "input", "case": c, "line": line, "observed": o}
         if o == "TIMEOUT":
             continue
@@ -384,7 +420,8 @@ def check_sort(ctx, env, cases):
             agree = False
             continue
         err, same, res, after, calls, tag = (o.split("|") + [""] * 6)[:6]
-        inp = sorted("%d.%d" % (e[0], e[1]) if isinstance(e, list) else e for e in c["elems"])
+        collected, nholes = sort_collect(c)
+        inp = sorted([estr(e) for e in collected] + ["n"] * nholes)
         subject = res if c["method"] == "toSorted" else after
         got = subject.split(",") if subject else []
         if c["mutate"] == "throw":
@@ -402,21 +439,23 @@ def check_sort(ctx, env, cases):
         # no loss, no duplication — for ANY comparator (holes become undefined for toSorted)
         norm = lambda xs: sorted(("u" if (x == "n" and c["method"] == "toSorted") else x) for x in xs)
         if norm(got) != norm(inp):
-            ctx.violation("sort-not-a-permutation:%s" % c["cmp"], "sort lost or duplicated elements", rep)
+            rep["expected_multiset"] = norm(inp)
+            ctx.violation("sort-not-a-permutation:%s%s" % (c["cmp"], (":proto-" + c["pwhere"]) if c.get("pwhere") else ""),
+                          "sort lost or duplicated elements (values reachable through HasProperty, inherited ones included): got %s" % ",".join(got)[:160], rep)
             continue
         if c["cmp"] == "random":
             continue
-        want = sort_oracle(c["elems"], c["cmp"], c["method"])
-        ctx.nontriv("sort|%s|%s|%s|%d" % (c["recv"], c["method"], c["cmp"], len(c["elems"])))
+        want = sort_oracle(c)
+        ctx.nontriv("sort|%s|%s|%s|%d|%s|%d" % (c["recv"], c["method"], c["cmp"], len(c["elems"]), c.get("pwhere", ""), len(c.get("pitems", []))))
         if got != want:
             rep["expected"] = ",".join(want)
             # is the deviation explained exactly by the mechanism model's reading of −0 as "less"?
             explained = False
             if c["cmp"] in ("desc-negate", "negzero") and env.model and len(c["elems"]) <= 12:
-                enc = ",".join("%d.%d" % (e[0], e[1]) if isinstance(e, list) else e for e in c["elems"] if e != "n")
+                enc = ",".join(estr(e) for e in collected)
                 m = run_one(ctx, env.model, "sort mech %s %s" % (c["cmp"], enc)) if enc else ""
                 mm = (m.split(",") if m else [])
-                holes = sum(1 for e in c["elems"] if e == "n")
+                holes = nholes
                 mm = mm + (["u"] * holes if c["method"] == "toSorted" else ["n"] * holes)
                 explained = (mm == got)
             elif c["cmp"] in ("desc-negate", "negzero") and (not env.model or len(c["elems"]) > 12):
@@ -431,8 +470,11 @@ def check_sort(ctx, env, cases):
                     json.dumps(c["elems"])[:120], ",".join(got)[:120], ",".join(want)[:120]), rep)
             else:
                 agree = False
-                ctx.violation("sort-unstable-or-wrong-order:%s:%s" % (c["recv"], c["cmp"]), "sort result differs from the stable spec answer", rep)
-    return agree
+                sig = "sort-unstable-or-wrong-order:%s:%s" % (c["recv"], c["cmp"])
+                if c.get("pwhere") and sorted(got) != sorted(want):
+                    sig = "sort-inherited-indexed-property-lost-or-misplaced:%s:%s" % (c["recv"], c["pwhere"])
+                ctx.violation(sig, "sort result (own-key layout %s) differs from SortIndexedProperties (HasProperty+Get, stable): want %s" % (",".join(got)[:120], ",".join(want)[:120]), rep)
+    return agree and not any(v["signature"].startswith("sort-") for v in ctx.violations)
 
 
 # ----------------------------------------------------------------------------- method sweep
